@@ -29,11 +29,14 @@ def build(ctx: RunCtx) -> Prop:
                      "a concurrent reader observes exactly the states between two backend effects (sequential consistency of the backend)",
                      "trigger.report_* only writes the trigger store"],
         trusted_base=["pyvc VC generator", "z3 5.1", "cvc5 1.0.3"],
-        not_decided="real reader/worker interleavings are not explored; value round trip through serializers is bounded (Hypothesis), not proved.",
+        not_decided="real reader/worker interleavings are not explored (the reader contract is sequential; the step invariant J5 covers what a concurrent reader can see "
+                    "between two effects of the writer); the value round trip through serializers is decided in C15 (bounded there for third-party serializers).",
         min_obligations=20,
         # "the matching result": what is read back is what was stored - results/exceptions go through the client data store, whose reference key
         # must address the whole content (verified in the C15 module's registry)
         parts=[("contracts.c15", ["pynenc.client_data_store.base_client_data_store:_generate_key",
                                   "pynenc.client_data_store.base_client_data_store:BaseClientDataStore._maybe_store",
-                                  "pynenc.client_data_store.base_client_data_store:BaseClientDataStore.resolve"])],
+                                  "pynenc.client_data_store.base_client_data_store:BaseClientDataStore.resolve",
+                                  "pynenc.client_data_store.mem_client_data_store:MemClientDataStore._store",
+                                  "pynenc.client_data_store.sqlite_client_data_store:SQLiteClientDataStore._store"])],
     )
